@@ -372,6 +372,27 @@ func (t *RTPTransceiver) isSendAllowed(kind RTPCodecType) bool {
 	return true
 }
 
+// answerDirection narrows the local direction to a legal answer to an m-section offered with the
+// direction offered (RFC 3264 S6.1): the answer sends only if the offer receives and receives only
+// if the offer sends. A direction that is already a legal answer is returned unchanged.
+func answerDirection(offered, local RTPTransceiverDirection) RTPTransceiverDirection {
+	send := (local == RTPTransceiverDirectionSendrecv || local == RTPTransceiverDirectionSendonly) &&
+		(offered == RTPTransceiverDirectionSendrecv || offered == RTPTransceiverDirectionRecvonly)
+	recv := (local == RTPTransceiverDirectionSendrecv || local == RTPTransceiverDirectionRecvonly) &&
+		(offered == RTPTransceiverDirectionSendrecv || offered == RTPTransceiverDirectionSendonly)
+
+	switch {
+	case send && recv:
+		return RTPTransceiverDirectionSendrecv
+	case send:
+		return RTPTransceiverDirectionSendonly
+	case recv:
+		return RTPTransceiverDirectionRecvonly
+	default:
+		return RTPTransceiverDirectionInactive
+	}
+}
+
 func findByMid(mid string, localTransceivers []*RTPTransceiver) (*RTPTransceiver, []*RTPTransceiver) {
 	for i, t := range localTransceivers {
 		if t.Mid() == mid {
